@@ -159,8 +159,16 @@ class Model:
     def idref(self, owner: Any, ref: Dict[str, Any], with_imports: bool = True, dontcares: bool = True) -> Outcome:
         doc = ref.get("doc")
         own = self.owner_frags(owner)
-        frs = [tuple(doc)] if doc else own
         lid = ref["ref"]
+        # spellings which are not well-formed ODXLINKs
+        if lid is None:
+            return ("FAIL", "the reference element has no ID-REF: it names nothing")
+        if doc and doc[0] is None:
+            # DOCTYPE without DOCREF: "absent DOCREF" could be read as fragment-relative; odxtools rejects the element
+            return ("DONTCARE", "DOCTYPE without DOCREF")
+        if doc and doc[1] is None:
+            return ("FAIL", "DOCREF without DOCTYPE: the referenced document fragment cannot be identified")
+        frs = [tuple(doc)] if doc else own
         importer = owner[1] if owner[0] == "layer" and with_imports else None
         for fr in frs:
             if fr not in self.frags:
@@ -349,6 +357,18 @@ class Model:
                 return ("FAIL", f"{len(cands5)} PROT-STACKs named {name} in {spec['sn']}")
             return ("BIND", cands5[0]["m"])
         raise ValueError(kind)
+
+    def lookup(self, owner: Any, ref: Dict[str, Any], accept: Optional[List[str]] = None) -> Outcome:
+        """what the link database of the loaded database (public API: Database.odxlinks) yields for a reference written
+        in `owner`: the fragment rules of idref() without import visibility (imports extend the ID pool only while the
+        importing layer resolves its own references); ("WRONGKIND", marker) if an `accept` list is given and the object
+        found is of another kind"""
+        res = self.idref(tuple(owner), ref, with_imports=False, dontcares=False)
+        if res[0] == "BIND" and accept:
+            tag = self.kind_tag.get(id(self.by_marker[res[1]][0]), "")
+            if tag not in accept:
+                return ("WRONGKIND", res[1])
+        return res
 
     # -- probes --------------------------------------------------------------------------------
     def expect(self, probe: Dict[str, Any]) -> Outcome:
